@@ -137,6 +137,9 @@ func c13Mode(o *cli.Opts, run *evid.Run, bin, mode string) {
 			continue
 		}
 		pendingUpload(o, run, ks, srv, fmt.Sprintf("%s/%s/upload-pending", key, prof.name))
+		if pi == 0 || o.Thorough() {
+			abandonedClients(o, run, ks, srv, fmt.Sprintf("%s/%s/abandoned-clients", key, prof.name), 1)
+		}
 		for rd := 0; rd < roundsPerProfile; rd++ {
 			n := sizes[(pi*roundsPerProfile+rd)%len(sizes)]
 			rkey := fmt.Sprintf("%s/%s/round%d", key, prof.name, rd)
@@ -164,6 +167,7 @@ func c13Mode(o *cli.Opts, run *evid.Run, bin, mode string) {
 		env := []string{"VERIF_DELAYS=prove.afterRead=3:6,prove.afterDecode=20:20", fmt.Sprintf("VERIF_SEED=%d", o.Seed)}
 		if srv, err := startServer(pbin, ks, o, "c13-"+mode+"-plain", env); err == nil {
 			pendingUpload(o, run, ks, srv, key+"/plain-binary/upload-pending")
+			abandonedClients(o, run, ks, srv, key+"/plain-binary/abandoned-clients", 2)
 			for rd := 0; rd < o.Pick(3, 12); rd++ {
 				rkey := fmt.Sprintf("%s/plain-binary/round%d", key, rd)
 				if run.Wants(rkey) && !(liveness.hung() && run.Violations() > 0) {
